@@ -109,6 +109,13 @@ def _large():
 
 
 LARGE = _large()
+# beyond 1000 carbon atoms (RDKit's default match limit, four-digit counts)
+_K = "C" * 1001
+LARGE += [_K + ">>" + _K + ".C=O",                         # product side carbon surplus: must be declined
+          "O" + "CCO" * 500 + ">>O" + "CCO" * 500 + "CO",  # the same as one molecule (PEG -> hemiformal)
+          _K + "O>>" + _K + "=O",                          # H2 missing
+          _K + "=O.[H][H]>>" + _K + "O",                   # balanced
+          _K + ".C>>" + _K + "C"]                          # H2 missing, 1002 carbon atoms on both sides
 
 
 # reactions whose MCS imputation succeeds but leaves a non-carbon imbalance behind
